@@ -171,8 +171,13 @@ fn run_case(idx: usize, line: &str, dir: &str, stage_bin: &str, out: &mut Out) {
         };
         Pv::One(e)
     } else {
+        // `stderr_to` given early: right after the first two commands were combined, before the rest is appended
+        let early = spec.get("errto") == "1" && spec.get("errwhen") == "early";
         let chain = |from: usize, to: usize| -> Pipeline {
             let mut p = mk(from) | mk(from + 1);
+            if early && from == 0 {
+                p = p.stderr_to(open_rw(&errto));
+            }
             for i in from + 2..to {
                 p = p | mk(i);
             }
@@ -195,7 +200,7 @@ fn run_case(idx: usize, line: &str, dir: &str, stage_bin: &str, out: &mut Out) {
         } else {
             set_out(set_in(chain(0, n), &input))
         };
-        if spec.get("errto") == "1" {
+        if spec.get("errto") == "1" && !(early && shape != "I") {
             p = p.stderr_to(open_rw(&errto));
         }
         Pv::Many(p)
@@ -239,7 +244,7 @@ fn run_case(idx: usize, line: &str, dir: &str, stage_bin: &str, out: &mut Out) {
         }
         ok
     };
-    let res: Result<(), String> = (|| -> Result<(), String> {
+    let res: Result<(), String> = std::panic::catch_unwind(std::panic::AssertUnwindSafe(|| -> Result<(), String> {
         let e2s = |e: subprocess::PopenError| format!("{:?}", e).chars().take(60).collect::<String>().replace(' ', "_");
         match (pv, term.as_str()) {
             (Pv::One(e), "popen") => {
@@ -321,7 +326,8 @@ fn run_case(idx: usize, line: &str, dir: &str, stage_bin: &str, out: &mut Out) {
             _ => return Err("bad-terminator".into()),
         }
         Ok(())
-    })();
+    }))
+    .unwrap_or_else(|_| Err("panic".to_string()));
     let ms = t0.elapsed().as_millis();
     let (log, _, _) = trace::stop();
     unsafe { trace::VERBOSE_WAIT = false };
